@@ -1450,3 +1450,47 @@ def gen_ser_entry(src, attempt, match_template, tokenize):
         return "Definition de_entry_readers : list (list N * list N) :=\n  [%s]." % ';\n   '.join(rows)
     attempt(out, 'de/mod.rs:io and crc entry points', deio, 'de_entry_readers')
     return '\n'.join(out) + '\n'
+
+
+# ----------------------------------------------------------------------------------------
+# GenDynComposite.v: the non-scalar arms of postcard-dyn's two walks, matched token for token (up to
+# renaming of locals) against the templates of tools/dyn_arm_templates.json; the holes (error kinds,
+# tag bytes) are emitted
+def gen_dyn_composite(src, attempt, match_template, tokenize):
+    import json
+    import os
+    out = ["(* GENERATED by tools/translate.py from the Rust sources. Do not edit. *)",
+           "From PV Require Import Base.", "Open Scope N_scope.", "",
+           "(* postcard-dyn: the non-scalar arms of ser_named_type / deserialize match their templates; the",
+           "   error kinds and byte literals at the holes *)"]
+    tpl = json.load(open(os.path.join(os.path.dirname(os.path.abspath(__file__)), 'dyn_arm_templates.json')))
+    for tag, path, fname in (('ser', 'source/postcard-dyn/src/ser.rs', 'ser_named_type'),
+                             ('de', 'source/postcard-dyn/src/de.rs', 'deserialize')):
+        def go(tag=tag, path=path, fname=fname):
+            text = src(path)
+            sig, body = find_fn(text, fname)
+            mbody = block_after(body, r'\bmatch\s+ty\s*')
+            arms = {}
+            for arm in split_arms(mbody):
+                m = re.match(r'^(.*?)=>\s*(.*)$', arm.strip(), re.S)
+                if not m:
+                    raise Untranslatable("dyn %s: arm `%s`" % (fname, arm[:60]))
+                key, b = compact(m.group(1)), m.group(2).strip()
+                if b.startswith('{') and b.endswith('}'):
+                    b = b[1:-1]
+                arms[key] = b
+            scal = set('OwnedDataModelType::' + k for k in DYN_SCALARS)
+            extra = sorted(set(arms) - scal - set(tpl[tag]))
+            if extra:
+                raise Untranslatable("dyn %s: unknown arm `%s`" % (fname, extra[0][:80]))
+            rows = []
+            for key in sorted(tpl[tag]):
+                if key not in arms:
+                    raise Untranslatable("dyn %s: no arm `%s`" % (fname, key[:80]))
+                toks = [t[1] for t in tokenize(arms[key])]
+                cap = match_template(toks, tpl[tag][key]['template'].split(), 'dyn %s: arm %s' % (fname, key[:50]))
+                hs = sorted((h for h in tpl[tag][key]['holes']), key=lambda x: (x[1], int(x[2:])))
+                rows.append("(%s, [%s])" % (coq_str(key), '; '.join(coq_str(cap[h]) for h in hs)))
+            return "Definition dyn_%s_composite_holes : list (list N * list (list N)) :=\n  [%s]." % (tag, ';\n   '.join(rows))
+        attempt(out, 'postcard-dyn:%s composite arms' % fname, go, 'dyn_%s_composite_holes' % tag)
+    return '\n'.join(out) + '\n'
